@@ -501,7 +501,8 @@ func c17Gate(r *sev1alpha1.Reservation, pod *corev1.Pod, preemptionComplete bool
 		}
 	}
 	if r.Status.Phase == sev1alpha1.ReservationSucceeded && len(r.Status.CurrentOwners) == 0 {
-		return "evict:reservation-bound-by-other-pod"
+		// used up by a pod that is not listed any more: the capacity was handed out, it is not secured for the job's pod
+		return "evict:reservation-bound-by-other-pod:consumer-gone"
 	}
 	if r.Status.NodeName == "" || sched == nil || sched.Status != sev1alpha1.ConditionStatusTrue {
 		return "evict:reservation-not-scheduled"
